@@ -138,6 +138,14 @@ func Now() time.Duration {
 	return s.now
 }
 
+// Advance moves the virtual clock forward without firing timers (due timers
+// fire at the next quiescence or as an early-timer deviation).
+func Advance(d time.Duration) {
+	if s != nil {
+		s.now += d
+	}
+}
+
 // CurrentID returns the id of the running virtual thread (-1 outside).
 func CurrentID() int {
 	if s == nil || s.cur == nil {
